@@ -259,7 +259,7 @@ def plans_for(chk):
     base = dict(oq.BASE)
     sc = oq.scale()
     if chk.quick:
-        return [("InitPart1", dict(base, K=1, GridKeepF=max(1, int(25 * sc)), GridKeep=max(1, int(30 * sc)), NQ=int(1000 * sc)))]
+        return [("InitPart1", dict(base, K=1, GridKeepF=max(1, int(20 * sc)), GridKeep=max(1, int(25 * sc)), NQ=int(800 * sc)))]
     return [("InitPart1", dict(base, K=1, GridKeepF=60, GridKeep=60, NQ=int(2000 * sc))),
             ("InitPart1", dict(base, K=0, NQ=int(2000 * sc), NP=2, NC=3, NG=3))]
 
